@@ -848,6 +848,14 @@ kasumi_f8_1_buffer_bit(const kasumi_key_sched_t *pCtx, const uint64_t IV, const 
                 }
                 xor_keystrm_rev(safeOutBuf.b8, safeInBuf.b8, c.b64[0]);
                 memcpy_keystrm(pcBufferOut, safeOutBuf.b8, byteLength);
+#ifdef SAFE_DATA
+                /* Clear sensitive data in stack */
+                clear_mem(&a, sizeof(a));
+                clear_mem(&b, sizeof(b));
+                clear_mem(&c, sizeof(c));
+                clear_mem(&safeInBuf, sizeof(safeInBuf));
+                clear_mem(&safeOutBuf, sizeof(safeOutBuf));
+#endif
                 return;
         }
 
@@ -1040,9 +1048,19 @@ kasumi_f8_2_buffer(const kasumi_key_sched_t *pCtx, const uint64_t IV1, const uin
                 pBufferIn1 = pBufferIn2;
                 pBufferOut1 = pBufferOut2;
         } else { /* lengthInBytes1 >= lengthInBytes2 */
-                if (!lengthInBytes1)
+                if (!lengthInBytes1) {
                         /* both packets are completed */
+#ifdef SAFE_DATA
+                        /* Clear sensitive data in stack */
+                        clear_mem(&a1, sizeof(a1));
+                        clear_mem(&b1, sizeof(b1));
+                        clear_mem(&a2, sizeof(a2));
+                        clear_mem(&b2, sizeof(b2));
+                        clear_mem(&temp, sizeof(temp));
+                        clear_mem(&safeInBuf, sizeof(safeInBuf));
+#endif
                         return;
+                }
                 /* process the remaining of packet 2 */
                 if (lengthInBytes2) {
                         kasumi_1_block(pCtx->sk16, b2.b16);
